@@ -374,6 +374,9 @@ func (c *tunnelChannel) allocateStream(ctx context.Context, clientStreams, serve
 			if err != nil {
 				return nil, nil, err
 			}
+			if md == nil && len(mdVals) > 0 {
+				md = metadata.MD{}
+			}
 			for k, v := range mdVals {
 				md.Append(k, v)
 			}
